@@ -5,6 +5,7 @@
 package keepclient
 
 import (
+	"fmt"
 	"io"
 	"sort"
 	"strconv"
@@ -89,6 +90,10 @@ func (c *BlockCache) Get(kc *KeepClient, locator string) ([]byte, error) {
 		go func() {
 			rdr, size, _, err := kc.Get(locator)
 			var data []byte
+			if err == nil && (size < 0 || size > int64(bufsize)) {
+				rdr.Close()
+				err = fmt.Errorf("error reading %q: response size %d exceeds expected size %d", locator, size, bufsize)
+			}
 			if err == nil {
 				data = make([]byte, size, bufsize)
 				_, err = io.ReadFull(rdr, data)
